@@ -279,6 +279,7 @@ CHECKS['C14'] = dict(
     assumptions=['tmux 3.3a is the terminal; liveness is judged by GET answering within 30 s'],
     units=[
         U('proc', 'TestVerifC14_Sessions', q(320, 16, cap=900), q(6400, 16, cap=3000), needs_fzf=True),
+        U('proc', 'TestVerifC14_PreviewTempFileAtExit', q(320, 16, cap=900), q(6400, 16, cap=3000), needs_fzf=True),
     ])
 
 CHECKS['C15'] = dict(
@@ -302,4 +303,5 @@ CHECKS['C20'] = dict(
     assumptions=['timing is varied, not controlled; a state that stays wrong for 4 s without change is a violation, the 40 s cap otherwise'],
     units=[
         U('proc', 'TestVerifC20_Sessions', q(160, 16, cap=900), q(2400, 16, cap=3000), needs_fzf=True),
+        U('proc', 'TestVerifC20_SupersededAtStart', q(160, 16, cap=900), q(2400, 16, cap=3000), needs_fzf=True),
     ])
